@@ -539,6 +539,11 @@ func fieldLoc(pi *pkgInfo, s *ast.SelectorExpr) (string, *types.Var) {
 	if m, _ := isMutex(v.Type()); m {
 		return "", nil
 	}
+	// sync/atomic values are synchronisation objects themselves (only reachable through
+	// their atomic methods; go vet rejects copies)
+	if n := namedOf(v.Type()); n != nil && n.Obj().Pkg() != nil && n.Obj().Pkg().Path() == "sync/atomic" {
+		return "", nil
+	}
 	return strings.SplitN(k, ".", 2)[1] + "." + v.Name(), v
 }
 
@@ -611,8 +616,16 @@ func assignContexts() {
 			for _, t := range targets {
 				called[t] = true
 				if isGo {
-					kind, self := selfOrdered[tf.Name()]
-					_ = kind
+					_, self := selfOrdered[tf.Name()]
+					// go v.m() right where v was allocated: one goroutine per object, and the
+					// method reaches the object's fields through its receiver only
+					if se, ok := c.Fun.(*ast.SelectorExpr); ok {
+						if id, ok := se.X.(*ast.Ident); ok && fn.fresh != nil {
+							if _, fresh := fn.fresh[pi.info.Uses[id]]; fresh {
+								self = true
+							}
+						}
+					}
 					gos = append(gos, goSite{fn, t, "go:" + t.name, self})
 				} else {
 					fn.callees[t] = true
@@ -1265,10 +1278,10 @@ func main() {
 	flag.Parse()
 	load(*repo)
 	collect()
-	assignContexts()
 	for _, fn := range fnodes {
 		findFresh(fn)
 	}
+	assignContexts()
 	// entry locks: what every caller holds on the receiver (greatest fixpoint, a few rounds)
 	for round := 0; round < 4; round++ {
 		calls := walkAll(false)
@@ -1338,7 +1351,7 @@ func main() {
 	w := func(f string, a ...any) { fmt.Fprintf(&b, f, a...) }
 	w("(* GENERATED by translate/c20 from internal/index/{manager,builder,converters} -- do not edit.\n")
 	w("   Regenerated by checks/c20.py on every run; rewritten only when the content changes. *)\n")
-	w("From Coq Require Import List NArith Bool.\nImport ListNotations.\nRequire Import Pk.Ownership.\nOpen Scope N_scope.\n\n")
+	w("From Coq Require Import List NArith Bool.\nImport ListNotations.\nRequire Import Pk.Ownership.\nLocal Open Scope N_scope.\n\n")
 	w("(* contexts: id, kind, ordered with itself, started while New still runs *)\n")
 	w("Definition gen_ctxs : list ctxinfo := [\n")
 	for i, c := range ctxs {
